@@ -52,8 +52,20 @@ def nontrivial(cfg, op, o):
     return (op[0], o["b"] > 0, pen, merged, settled, cfg["dsc"], cfg["same"], len(str(o["supply"])) // 4)
 
 
+def corpus():
+    import os, json, glob
+    d = os.path.join(os.path.dirname(os.path.dirname(os.path.dirname(os.path.abspath(__file__)))), "corpus", "C05")
+    out = []
+    for f in sorted(glob.glob(os.path.join(d, "*.json"))):
+        c = json.load(open(f))
+        c["ops"] = [[tuple(x) if isinstance(x, list) and len(x) == 2 and all(isinstance(y, int) for y in x) and op[0] in ("Claim", "Exit", "Compound") and i == 2 else x
+                     for i, x in enumerate(op)] for op in c["ops"]]
+        out.append(c)
+    return out
+
+
 def explore(tier, seed, model_ok=True, focus=False):
-    return explore_farm("C05", tier, seed, monitor, nontrivial, RULE, model_ok, focus)
+    return explore_farm("C05", tier, seed, monitor, nontrivial, RULE, model_ok, focus, corpus=corpus())
 
 
 def replay(data):
